@@ -74,17 +74,6 @@ def onceB (w : World) : Bool :=
 def pausedCleanB (w : World) : Bool :=
   w.wf != .PAUSED || w.tasks.all fun r => isCompleted r.state || !r.processed
 
-/-- the event is a stale re-start: a `start_task(first_run=False)` request (queued by `resume` for a
-    task that was still IDLE) delivered when that task has meanwhile FAILED: `_run_existing` runs
-    it again -/
-def staleB (w : World) : Event → Bool
-  | .deliver (.rpcStartTask t false) =>
-    w.pending.contains (.rpcStartTask t false) &&
-      (match findTask w t with
-       | some r => r.state == .ERROR
-       | none => false)
-  | _ => false
-
 def checks (sp : Spec) (orc : String → Bool) : List (String × (World → Bool)) :=
   [("sound", soundB sp orc), ("complete", completeB sp orc)]
 
@@ -232,12 +221,7 @@ def handle (fn : String) (a : Json) : Option (Except String Json) :=
         evs.foldl (fun (p : World × Nat × Option Nat × Option Nat × Option Nat × Option Nat) e =>
           let (w, k, stale, unclean, foreign, unsound) := p
           let stale := if stale.isNone && staleB w e then some k else stale
-          let foreign := if foreign.isSome then foreign else
-            match e with
-            | .stop _ => some k
-            | .deliver (.runAction _) => some k
-            | .execute t ok => if ok != orc t.1 then some k else none
-            | _ => none
+          let foreign := if foreign.isSome then foreign else (if plainB orc e then none else some k)
           let w' := step sp w e
           let unclean := if unclean.isNone && !pausedCleanB w' then some k else unclean
           let unsound := if unsound.isNone && !soundB sp orc w' then some k else unsound
